@@ -14,6 +14,10 @@
 //	o bit 0 = file "aaa" (sorts before "spokfile"), bit 1 = file "zzz" (sorts after);
 //	start = level i; stop = Lj (level j) | Uj (a directory "u" next to level j) | ROOT ("/").
 //
+//	MC <v>:  the directories of the chain have glob meta characters in their NAMES (v selects the pair of names), and next to
+//	         every level lies a decoy directory (with a spokfile) that the name, read as a pattern, would match: names are
+//	         names — the model does not know the option.
+//
 // observation:  RES FOUND <level> | RES NOTFOUND | RES ERR | RES HANG
 //
 // Every case is built as a REAL tree in a fresh temp directory and file.Find is called on it.
@@ -123,7 +127,7 @@ func findWork(c string) string {
 	if len(f) < 6 || len(f)%2 != 0 || f[0] != "L" || f[2] != "S" || f[4] != "T" {
 		return "BAD-CASE"
 	}
-	linkAt, relFrom, caseAt := -1, -1, -1
+	linkAt, relFrom, caseAt, mc := -1, -1, -1, -1
 	for i := 6; i+1 < len(f); i += 2 {
 		v, err := strconv.Atoi(f[i+1])
 		if err != nil || v < 0 {
@@ -136,6 +140,8 @@ func findWork(c string) string {
 			relFrom = v
 		case "CS":
 			caseAt = v
+		case "MC":
+			mc = v
 		default:
 			return "BAD-CASE"
 		}
@@ -155,22 +161,49 @@ func findWork(c string) string {
 	b := ensureBase()
 	seq++
 	// B must hold nothing but the chain (and `u`): the chain root is always called "c"
-	root := filepath.Join(b, "c")
+	cname, dname := "c", "d"
+	var decoys [2]string
+	if mc >= 0 {
+		if mc >= len(mcNames) {
+			return "BAD-CASE"
+		}
+		cname, dname = mcNames[mc][0], mcNames[mc][1]
+		decoys = [2]string{mcNames[mc][2], mcNames[mc][3]}
+	}
+	root := filepath.Join(b, cname)
 	ext := filepath.Join(b, "ext")
-	_ = os.RemoveAll(root)
-	_ = os.RemoveAll(filepath.Join(b, "u"))
-	_ = os.RemoveAll(ext)
-	defer func() {
-		_ = os.RemoveAll(root)
-		_ = os.RemoveAll(filepath.Join(b, "u"))
-		_ = os.RemoveAll(ext)
-	}()
+	wipe := func() {
+		es, _ := os.ReadDir(b)
+		for _, e := range es {
+			_ = os.RemoveAll(filepath.Join(b, e.Name()))
+		}
+	}
+	wipe()
+	defer wipe()
 	dirs := []string{root}
 	for i := 1; i < len(ks); i++ {
-		dirs = append(dirs, filepath.Join(dirs[i-1], "d"))
+		dirs = append(dirs, filepath.Join(dirs[i-1], dname))
 	}
 	if err := os.MkdirAll(dirs[len(dirs)-1], 0o755); err != nil {
 		return "BAD-SETUP " + sup.Hx(err.Error())
+	}
+	if mc >= 0 {
+		// the decoys: what the names would match if they were patterns
+		for i, d := range dirs {
+			dec := filepath.Join(filepath.Dir(d), decoys[1])
+			if i == 0 {
+				dec = filepath.Join(filepath.Dir(d), decoys[0])
+			}
+			if dec == d {
+				continue
+			}
+			if err := os.MkdirAll(dec, 0o755); err != nil {
+				return "BAD-SETUP " + sup.Hx(err.Error())
+			}
+			if err := os.WriteFile(filepath.Join(dec, file.NAME), []byte("# decoy\n"), 0o644); err != nil {
+				return "BAD-SETUP " + sup.Hx(err.Error())
+			}
+		}
 	}
 	for i, k := range ks {
 		if err := populate(dirs[i], k); err != nil {
@@ -244,7 +277,7 @@ func findWork(c string) string {
 		defer os.Chdir(wd)
 		start = "."
 		if si > relFrom {
-			start = strings.TrimSuffix(strings.Repeat("d/", si-relFrom), "/")
+			start = strings.TrimSuffix(strings.Repeat(dname+"/", si-relFrom), "/")
 		}
 	}
 
@@ -281,6 +314,15 @@ func callFind(dirs []string, start, stop string) (out string) {
 // ---------------------------------------------------------------------------------------------
 
 const hexd = "0123456789abcdef"
+
+// mcNames: name of the chain root, name of the deeper levels, and the decoys next to them
+var mcNames = [][4]string{
+	{"c[x]", "d[1]", "cx", "d1"},
+	{"c*", "d?", "cc", "dq"},
+	{"[c", "d]", "c", "d"},
+	{"c\\c", "d\\d", "cc", "dd"},
+	{"{c,e}", "d{1,2}", "c", "d1"},
+}
 
 func genChains(w *bufio.Writer, n int, kinds []int) {
 	// all kind vectors of length n
@@ -355,6 +397,14 @@ func genVariants(w *bufio.Writer, n int, kinds []int) {
 				}
 				for cs := 0; cs < n; cs++ {
 					fmt.Fprintf(w, "L %s S %d T %s CS %d\n", ks, s, st, cs)
+				}
+				for mc := range mcNames {
+					fmt.Fprintf(w, "L %s S %d T %s MC %d\n", ks, s, st, mc)
+				}
+				if st == "ROOT" {
+					for i0 := 0; i0 <= s; i0++ {
+						fmt.Fprintf(w, "L %s S %d T %s REL %d MC %d\n", ks, s, st, i0, (s+i0)%len(mcNames))
+					}
 				}
 				for i0 := 0; i0 <= s; i0++ {
 					fmt.Fprintf(w, "L %s S %d T %s REL %d\n", ks, s, st, i0)
